@@ -185,6 +185,37 @@ async fn server_sizes(rep: &mut Report, sizes: &[usize]) {
             }
         }
     }
+    // bursts in both directions
+    if let Some(ra) = relay_addr {
+        for burst in [vec![1usize, 2, 3], vec![300, 5, 300, 5], vec![1400, 1400, 1, 1400], vec![9000, 10, 9000], vec![255, 256, 257, 65, 1]] {
+            rep.case(Some(&format!("server side, burst {:?}", burst)));
+            let ds: Vec<Vec<u8>> = burst.iter().enumerate().map(|(i, l)| dgram(4000 + i as u32 * 7 + *l as u32, *l)).collect();
+            let mut all = vec![];
+            for d in &ds {
+                all.extend_from_slice(&framed(d));
+            }
+            let _ = feed.send(Bytes::from(all));
+            let mut got = vec![];
+            for _ in 0..ds.len() {
+                match recv_one(&target, 1500).await {
+                    Some((d, _)) => got.push(d),
+                    None => break,
+                }
+            }
+            if got != ds {
+                rep.violation("C15:datagram-lost-or-merged", &format!("server side, {} datagrams of sizes {:?} in one stream chunk: the target received sizes {:?}", ds.len(), burst, got.iter().map(|x| x.len()).collect::<Vec<_>>()), json!({"engine": "SEMI", "side": "server", "burst": burst}));
+                break;
+            }
+            for d in &ds {
+                let _ = target.send_to(d, ra).await;
+            }
+            let back = collect_framed(&mut out, ds.len(), 2000).await;
+            if back != ds {
+                rep.violation("C15:return-datagrams-merged-or-split", &format!("server side, burst of datagrams of sizes {:?} returned back-to-back by the target: the tunnel carried sizes {:?}", burst, back.iter().map(|x| x.len()).collect::<Vec<_>>()), json!({"engine": "SEMI", "side": "server", "burst": burst}));
+                break;
+            }
+        }
+    }
     drop(feed);
     h.abort();
 }
@@ -374,6 +405,37 @@ async fn client_side(rep: &mut Report, sizes: &[usize], thorough: bool) {
             }
         }
     }
+    // bursts: several datagrams sent back-to-back before the relay has forwarded the first (sizes chosen so that a
+    // merged, split or buffer-reusing relay shows)
+    for burst in [vec![1usize, 2, 3], vec![300, 5, 300, 5], vec![1400, 1400, 1, 1400], vec![9000, 10, 9000], vec![255, 256, 257, 65, 1]] {
+        rep.case(Some(&format!("client side, burst {:?}", burst)));
+        let ds: Vec<Vec<u8>> = burst.iter().enumerate().map(|(i, l)| dgram(3000 + i as u32 * 7 + *l as u32, *l)).collect();
+        for d in &ds {
+            let _ = app.send_to(d, laddr).await;
+        }
+        let got = collect_framed(&mut out, ds.len(), 2000).await;
+        if got != ds {
+            rep.violation("C15:datagram-lost-or-merged", &format!("client side, burst of datagrams of sizes {:?} sent back-to-back: the tunnel carried sizes {:?}{}", burst, got.iter().map(|x| x.len()).collect::<Vec<_>>(), if got.len() == ds.len() { " (contents differ)" } else { "" }), json!({"engine": "SEMI", "side": "client", "burst": burst}));
+            break;
+        }
+        // and the same burst coming back in one piece
+        let mut all = vec![];
+        for d in &ds {
+            all.extend_from_slice(&framed(d));
+        }
+        let _ = feed.send(Bytes::from(all));
+        let mut back = vec![];
+        for _ in 0..ds.len() {
+            match recv_one(&app, 1500).await {
+                Some((d, _)) => back.push(d),
+                None => break,
+            }
+        }
+        if back != ds {
+            rep.violation("C15:return-datagrams-merged-or-split", &format!("client side, {} datagrams of sizes {:?} returned in one stream chunk: the application received sizes {:?}", ds.len(), burst, back.iter().map(|x| x.len()).collect::<Vec<_>>()), json!({"engine": "SEMI", "side": "client", "burst": burst}));
+            break;
+        }
+    }
     // two local applications (different source ports) use the association in turn: every reply goes
     // to the application whose datagram it answers (the last sender), never to the other one
     {
@@ -543,5 +605,5 @@ pub fn run(tier: Tier) -> i32 {
     fragments_with_gaps(&mut rep, thorough);
     rep.sections.insert("sizes".into(), json!({"count": sizes.len(), "min": sizes.first(), "max": sizes.last()}));
     rep.sample(json!({"case": "server side, byte stream [initial request][len=5][..][len=1][.][len=2][..] delivered cut at [9, 14]"}));
-    rep.finish("IX/SEMI: datagram sizes (quick: boundary sizes incl. 65505..65507; thorough: every size 1..=65507) in both directions through the real server-side and client-side relay loops over real loopback UDP sockets in lock-step; every 1-cut and 2-cut split (and byte-at-a-time) of 2- and 3-datagram length-prefixed streams incl. cuts inside the initial request; three concurrent associations on one server (two to the same target) with replies attributed per association; two-piece deliveries with 0..301 s (thorough ..3601 s) of silence between the pieces (clock of a current-thread runtime jumped); end to end through create_udp_proxy and the real handler for an IPv4 and an IPv6 target; non-trivial = distinct size / cut pattern")
+    rep.finish("IX/SEMI: datagram sizes (quick: boundary sizes incl. 65505..65507; thorough: every size 1..=65507) in both directions through the real server-side and client-side relay loops over real loopback UDP sockets in lock-step; every 1-cut and 2-cut split (and byte-at-a-time) of 2- and 3-datagram length-prefixed streams incl. cuts inside the initial request; bursts of datagrams back-to-back / in one stream chunk in both directions; three concurrent associations on one server (two to the same target) with replies attributed per association; two-piece deliveries with 0..301 s (thorough ..3601 s) of silence between the pieces (clock of a current-thread runtime jumped); end to end through create_udp_proxy and the real handler for an IPv4 and an IPv6 target; non-trivial = distinct size / cut pattern")
 }
